@@ -36,8 +36,11 @@ PROPS = {
                         'pi is any positive rational in the theorems (only pi_pos is used)'],
         'level_text': 'Group laws (involutions, k then 4-k quarter turns, four turns, commutation, all-axes flip = three '
                       'flips) are theorems over the Gallina definitions regenerated from geometric/functional.py on every '
-                      'run, for all boxes, keypoints (position, angle mod 2pi, scale), planes, factors and frame sizes; '
-                      'voxel-level laws and pad+inverse-crop are exercised on the implementation by the search oracle.',
+                      'run, for all boxes, keypoints (position, angle mod 2pi, scale), planes, factors and frame sizes, together with '
+                      'the relations between the maps (quarter turn = transpose then flip, half turn = two flips, a flip '
+                      'conjugates k turns to 4-k, factor k = k single turns) and pad followed by the inverse crop on boxes, '
+                      'keypoints and voxels; voxel-level laws of the other maps are exercised on the implementation by the '
+                      'search oracle.',
         'level_note': 'Trusted: Coq kernel, the translator (validated by the vm_compute correspondence on every run), '
                       'exact-rational model of floats. Voxel maps are not yet inside the proof for this property.',
     },
@@ -146,7 +149,9 @@ PROPS['C10'] = {
     'level_text': 'Round-trip identity of the box (3 formats) and keypoint (6 formats x 2 angle units) conversions is '
                   'proved over the Gallina definitions regenerated from the source, for every frame size and every '
                   'real-valued valid annotation; "no leaf fired => data returned unchanged" is proved for every '
-                  'operator tree, draw list and leaf semantics on the scheduling model. The pre/post-processing glue '
+                  'operator tree, draw list and leaf semantics on the scheduling model. The box filter that runs after every '
+                  'call returns boxes meeting the configured thresholds unchanged (theorem over the regenerated processor '
+                  'wiring and filter). The pre/post-processing glue '
                   'around an empty pipeline is exercised on the implementation by the search oracle.',
     'level_note': 'Trusted: Coq kernel, translator, hand-written Framework model (validated by correspondence on '
                   'recorded draws), exact-rational floats. Bit-identity of arrays is an implementation-side check.',
@@ -243,7 +248,8 @@ PROPS['C15'] = {
     'level_text': 'Per-call scheduling clauses (fires iff u<p or always or forced; OneOf = the drawn child, forced; SomeOf '
                   '= the n drawn children in order; OneOrOther = first or last; listed order; skipped Compose = '
                   'always-apply leaves; weights sum to 1) are theorems on the operator model for every tree, draw list '
-                  'and leaf semantics; the frequency clause is statistical and explored only.',
+                  'and leaf semantics; a selected tree of choice operators applies exactly one leaf at every depth (induction '
+                  'over the tree); the frequency clause is statistical and explored only.',
     'level_note': 'Trusted: Coq kernel; the hand-written Framework model, validated on every run against the real '
                   'operators with recording transforms and recorded entropy reads. Frequencies: partial.',
 }
